@@ -30,6 +30,7 @@ TOKEN_METHODS = ('identifier', 'keyword', 'stringliteral', 'bytesliteral', 'fstr
 INLINE_HELPERS = ('_expression', '_testlist', '_exprlist', '_lhs', '_rhs', 'precedence', '_is_left_associative', '_is_right_associative',
                   'pattern', 'key_datum')
 OPERATOR_TAGS = tags_of_class((real_ast.operator, real_ast.unaryop, real_ast.boolop, real_ast.cmpop))
+COMPOUND_TAGS = {'If', 'For', 'AsyncFor', 'While', 'Try', 'TryStar', 'With', 'AsyncWith', 'FunctionDef', 'AsyncFunctionDef', 'ClassDef', 'Match'}
 EXPR_TAGS = tags_of_class(real_ast.expr)
 
 OP_SYMBOLS = {
@@ -233,7 +234,7 @@ def install_hooks(interp, policy, receiver_cls):
         def h(it, f, args, kwargs):
             selfv = args[0]
             a = args[1:] if len(args) > 1 else []
-            policy.tokens.append(Tok(name, a[0] if a else None, policy.stack(), kwargs={'args': a}))
+            policy.tokens.append(Tok(name, a[0] if a else None, policy.stack(), kwargs={'args': a, 'quals': [fr.func.qual for fr in it.frames]}))
             if name == 'append':
                 pass
             return None
@@ -699,6 +700,32 @@ def task_visit(receiver, tag, method):
         called.update(interp.called)
         ctx.check(prefix + '/no-exception', raised is None, kind='noraise', detail='raised %r' % (raised,))
         toks = policy.tokens
+        if raised is None:
+            # L4: the brackets this method prints itself are well nested on every path (children print balanced text by the same contract)
+            stack, bad = [], None
+            for ev in toks:
+                if any(q.startswith('Delimiter.') for q in ev.kwargs.get('quals', ())):
+                    continue        # parentheses of a `with Delimiter(...)` group balance by the contract of Delimiter (contracts/tokens.py:task_delimiter)
+                if ev.kind == 'delimiter' and ev.text in ('(', '[', '{'):
+                    stack.append(ev.text)
+                elif ev.kind == 'delimiter' and ev.text in (')', ']', '}'):
+                    if not stack or {'(': ')', '[': ']', '{': '}'}[stack[-1]] != ev.text:
+                        bad = 'closing %r without its opener' % ev.text
+                        break
+                    stack.pop()
+            if bad is None and stack:
+                bad = 'opened %r and never closed' % ''.join(stack)
+            ctx.check('C02/L4/%s.%s[%s]/brackets-are-balanced' % (receiver, method, tag), bad is None, kind='emit', detail=bad or '')
+            # L4: a compound statement starts on a fresh line: the first thing its method prints is newline()
+            if receiver == 'ModulePrinter' and tag in COMPOUND_TAGS and method == 'visit_' + tag:
+                first = toks[0] if toks else None
+                fresh = first is not None and first.kind == 'newline'
+                cond = z3.BoolVal(fresh)
+                if not fresh and tag == 'If':
+                    # `elif`: visit_If(node, el=True) continues the chain of its parent on the line the parent's suite ended
+                    cond = z3.BoolVal(first is not None and first.kind == 'keyword' and first.text == 'elif')
+                ctx.check('C02/L4/%s.%s[%s]/starts-on-a-fresh-line' % (receiver, method, tag), cond, kind='emit',
+                          detail='first printed: %r' % (first,))
         # dict unpacking state: key_datum(None, datum) prints '**' first
         for p, ev in enumerate(toks):
             if ev.kind != 'child':
